@@ -2,7 +2,7 @@
 # usage: confirm_seed.sh <seed dir with patch.diff + demo.*> <base commit> -> prints a one-line JSON result
 # Confirms in a scratch worktree (outside /repo and /verif): the suite passes with the change, the demo
 # fails with it and passes without it.  The worktree is removed afterwards.
-sd=$1; base=$2; name=$(echo $sd | sed "s#.*/seedout[23]\?/##; s#/#_#g")
+sd=$1; base=$2; name=$(echo $sd | sed "s#.*/seedout[234]\?/##; s#/#_#g")
 wt=/tmp/confirm/$name
 rm -rf $wt; mkdir -p /tmp/confirm
 git -C /repo worktree add -f $wt $base >/dev/null 2>&1 || { echo "{\"seed\":\"$name\",\"error\":\"worktree\"}"; exit 1; }
@@ -11,7 +11,8 @@ build() { cmake -G Ninja -B build -DBUILD_TESTS=ON -DCMAKE_BUILD_TYPE=RelWithDeb
 rundemo() {
   if [ -f $sd/demo.sh ]; then timeout 900 bash $sd/demo.sh $wt/build/primesieve >/dev/null 2>&1; echo $?; return; fi
   extra=""; grep -q "fsanitize" $sd/demo.cpp && { g++ -O1 -g -std=c++17 -fsanitize=address,undefined -fno-sanitize-recover=all -DENABLE_ASSERT -I$wt/include $sd/demo.cpp $wt/src/*.cpp $wt/src/arch/x86/*.cpp -lpthread -o $wt/demo_bin >/dev/null 2>&1 || { echo build-fail; return; }; timeout 900 $wt/demo_bin >/dev/null 2>&1; echo $?; return; }
-  g++ -O2 -std=c++17 -I$wt/include -I$wt/src $sd/demo.cpp $wt/build/libprimesieve.a -lpthread -o $wt/demo_bin >/dev/null 2>&1 || { echo build-fail; return; }
+  wrapf=""; grep -q -- "--wrap=malloc" $sd/demo.cpp && wrapf="-Wl,--wrap=malloc,--wrap=realloc,--wrap=free"
+  g++ -O2 -std=c++17 -I$wt/include -I$wt/src $sd/demo.cpp $wt/build/libprimesieve.a -lpthread $wrapf -o $wt/demo_bin >/dev/null 2>&1 || { echo build-fail; return; }
   timeout 900 $wt/demo_bin $wt/build/primesieve >/dev/null 2>&1; echo $?
 }
 git apply $sd/patch.diff 2>/dev/null || patch -p1 -F3 --no-backup-if-mismatch -r - < $sd/patch.diff >/dev/null 2>&1 || { cd /; git -C /repo worktree remove --force $wt; echo "{\"seed\":\"$name\",\"error\":\"patch does not apply at $base\"}"; exit 1; }
